@@ -146,6 +146,11 @@ func (ctx *Context) applyAtRecursively(pos int) int {
 		}
 	}
 
+	// If the action budget is exhausted, drop the remaining actions so that
+	// they cannot leak into the next match or the next call to Apply.
+	clear(ctx.stack)
+	ctx.stack = ctx.stack[:0]
+
 	return next
 }
 
